@@ -179,7 +179,7 @@ def _make(root_inc: int):
                          "cincoconfig.fields.include_field.IncludeField.include",
                          "cincoconfig.fields.include_field.IncludeField.combine_trees",
                          "cincoconfig.fields.file_field.FilenameField._validate"],
-                budget={"quick": 240, "thorough": 600},
+                budget={"quick": 500, "thorough": 900},
                 what="Config.loads with include fields at the root (two, chained) and in a nested schema == loading "
                      "the reference-merged tree; missing/directory include path => the load fails "
                      "(root include path kind fixed per obligation: none/relative/absolute/missing/directory)")
